@@ -448,8 +448,85 @@ def corr_class_enum(ctx, corr):
                                                ' '.join(list(c[1]) + list(c[0])), ' '.join(c[5]), m, r)))
 
 
+# ---------------------------------------------------------------------------
+# constructor / destructor detection: extracted ctor_dtor (Parse/CtorDtor.v) vs the head of the real _parse_decl
+
+CD_IDS = {0: '', 1: 'A', 2: 'B', 3: 'C'}
+
+
+def _cd_seg(sn):
+    """None | (tilde, id) -> a PQName segment"""
+    if sn is None:
+        return T.AnonymousName(7)
+    return T.NameSpecifier(('~' if sn[0] else '') + CD_IDS[sn[1]])
+
+
+def real_ctor_dtor(in_class, is_friend, is_type, cls, segs):
+    from cxxheaderparser import parserstate as PS
+    from harness import decl
+    strs = ([] if is_type else ['*']) + ['(', ')', ';']
+    toks = [impl.mk_tok(decl.tok_type(x), x) for x in strs]
+    p = impl.parser_over(toks)
+    got = []
+
+    def fake_parse_function(mods, dtype, pqname, op, template, doxygen, location, constructor, destructor, *a, **k):
+        got.append((constructor, destructor))
+        return True
+    p._parse_function = fake_parse_function
+    if in_class:
+        cd = T.ClassDecl(T.PQName([_cd_seg(cls)], classkey='struct'))
+        p.state = PS.ClassBlockState(p.state, impl.L.Location("<list>", 1), cd, 'public', False, PS.ParsedTypeModifiers({}, {}, {}))
+    pt = T.Type(T.PQName([_cd_seg(x) for x in segs]))
+    try:
+        p._parse_decl(pt, PS.ParsedTypeModifiers({}, {}, {}), impl.L.Location("<list>", 1), None, None, False, is_friend)
+    except (impl.CxxParseError, EOFError, AssertionError, IndexError, AttributeError, TypeError):
+        pass
+    if not got:
+        return 'none'
+    c, d = got[0]
+    return 'ctor' if c else 'dtor' if d else 'none'
+
+
+def model_ctor_dtor(cases):
+    def enc(sn):
+        return [0] if sn is None else [1, int(sn[0]), sn[1]]
+    lines = []
+    for ic, fr, ty, cls, segs in cases:
+        lines.append([102, int(ic), int(fr), int(ty)] + enc(cls) + [len(segs)] + [x for sgm in segs for x in enc(sgm)])
+    return [{0: 'none', 1: 'ctor', 2: 'dtor'}[o[1]] if o[0] == 0 else 'err' for o in run_driver(lines)]
+
+
+def corr_ctor_dtor(ctx, corr):
+    import itertools
+    names = [None] + [(t, i) for t in (False, True) for i in (0, 1, 2)]
+    cases = []
+    for ic in (False, True):
+        for fr in (False, True):
+            for ty in (False, True):
+                for cls in names:
+                    for n in (1, 2, 3):
+                        for segs in itertools.product(names, repeat=n):
+                            if n == 3 and segs[0] not in (None, (False, 1)):
+                                continue
+                            if not ic and cls != (False, 1):
+                                continue
+                            cases.append((ic, fr, ty, cls, list(segs)))
+    ms = model_ctor_dtor(cases)
+    for c, m in zip(cases, ms):
+        corr.cases += 1
+        r = real_ctor_dtor(*c)
+        k = "ctor-dtor:" + m + "/" + r
+        corr.dist[k] = corr.dist.get(k, 0) + 1
+        if m != r:
+            corr.disagreements.append(dict(case=dict(kind='corr-ctordtor', in_class=c[0], is_friend=c[1], is_type=c[2],
+                                                     cls=c[3], segs=c[4]), model=m, impl=r,
+                                           what="constructor/destructor detection (in_class=%s friend=%s plain=%s class=%s name=%s): model %s, implementation %s"
+                                                % (c[0], c[1], c[2], c[3], c[4], m, r)))
+
+
 def correspond(ctx):
     corr = c05.correspond(ctx)
+    corr_ctor_dtor(ctx, corr)
     corr_class_enum(ctx, corr)
     corr_bases(ctx, corr)
     corr_fields(ctx, corr)
@@ -812,6 +889,11 @@ def search(ctx, boost=False):
 
 
 def replay(ctx, case):
+    if case.get("kind") == "corr-ctordtor":
+        tup = lambda x: None if x is None else tuple(x)
+        c = (case["in_class"], case["is_friend"], case["is_type"], tup(case["cls"]), [tup(x) for x in case["segs"]])
+        m, r = model_ctor_dtor([c])[0], real_ctor_dtor(*c)
+        return ["constructor/destructor detection: model %s, implementation %s" % (m, r)] if m != r else []
     if case.get("kind") == "corr-classenum":
         c = (tuple(case["key"]), tuple(case["flags"]), case["template"], case["is_typedef"], case["is_friend"], case["tokens"])
         m = model_class_enum([c])[0]
